@@ -18,6 +18,7 @@ CFG = dict(
     case_type="c04case",
     find_bad_from="find_bad_from",
     rigs=[dict(test="TestC04", timeout_quick=300, timeout_thorough=1200),
+          dict(test="TestC04StreamOpsBad", timeout_quick=300, timeout_thorough=1200),
           dict(test="TestC04Sys", timeout_quick=300, timeout_thorough=1200)],
     reason_text={"1": "implementation output differs from the Gallina model (Model/Meta.v, Base64.v, SrvStream.v)",
                  "2": "implementation output violates the property predicate (Check/C04c.v: spec_codec / spec_stream / accepted tokens / "
@@ -27,11 +28,12 @@ CFG = dict(
          "1..4 values, binary values incl. empty/NUL/0xFF/alphabet chars 62-63/long, keys colliding after lower-casing, 1..3 maps "
          "joined) through ToKeyValue then ToMetadata; base64 decoder on fixed + random malformed strings (CR/LF, padding, std "
          "alphabet, raw); ToMetadata on mixed lists; server stream object: ALL programs of length<=4 (thorough: 5) over "
-         "{SetHeader,SendHeader,SetTrailer,SendMsg,SendTrailer} plus random longer ones; unary collector: all programs of "
+         "{SetHeader,SendHeader,SetTrailer,SendMsg,SendTrailer} plus random longer ones, and ALL programs of length<=4 that contain a "
+         "SendMsg whose value the codec rejects; unary collector: all programs of "
          "length<=5; whole RPCs in bubbles (real client, link, real server): {unary, client-, server-, bidi stream} x caller metadata "
          "(0..16 keys, any letter case, 1..4 values, -bin values with NUL/0xFF/empty; attached through the outgoing context, a client "
          "interceptor, or both; with and without a deadline) x handler programs of 0..5 calls over {SetHeader, SendHeader, SetTrailer, "
-         "SendMsg} with raw metadata.MD literals (mixed-case -Bin suffixes), through the stream's methods or grpc.SetHeader/SendHeader/"
+         "SendMsg, SendMsg rejected by the codec} with raw metadata.MD literals (mixed-case -Bin suffixes), through the stream's methods or grpc.SetHeader/SendHeader/"
          "SetTrailer, returning nil or an error, plus fixed scenarios for the three ways headers leave: handler's incoming metadata, "
          "caller's Header()/Trailer() (unary: stats InHeader / wire list) and the wire lists vs the model; non-trivial = distinct description hash",
     assumptions=["encoding/base64, strings.ToLower/HasSuffix, metadata.Join and Go map iteration are Go's/grpc's: modelled and validated differentially, not verified",
